@@ -282,10 +282,17 @@ let hash_flag f =
   | Some b -> b
   | None -> f.f_cmp
 
-(** val cy_hash_names : field list -> name list **)
+(** val cy_hash_flag : bool -> field -> bool **)
 
-let cy_hash_names fs =
-  names (filter (fun f -> (&&) (negb f.f_initvar) (hash_flag f)) fs)
+let cy_hash_flag hx f =
+  if hx then hash_flag f else (match f.f_hash with
+                               | Some b -> b
+                               | None -> true)
+
+(** val cy_hash_names : bool -> field list -> name list **)
+
+let cy_hash_names hx fs =
+  names (filter (fun f -> (&&) (negb f.f_initvar) (cy_hash_flag hx f)) fs)
 
 type action =
 | ANothing
@@ -324,12 +331,12 @@ let hash_of_action a ns =
   | AAdd -> HAdd ns
   | ARaise -> HErr
 
-(** val cy_hash : opts -> user -> field list -> hashres **)
+(** val cy_hash : bool -> opts -> user -> field list -> hashres **)
 
-let cy_hash o u fs =
+let cy_hash hx o u fs =
   hash_of_action
     (cy_hash_action o.o_unsafe_hash o.o_eq o.o_frozen (cy_explicit_hash u))
-    (cy_hash_names fs)
+    (cy_hash_names hx fs)
 
 (** val cy_match_args : opts -> user -> field list -> name list option **)
 
@@ -394,7 +401,7 @@ let is_herr = function
 let cy_rejected o u fs =
   (||)
     ((||) (existsb (fun f -> is_some f.f_kw) fs)
-      (is_sigerr (cy_init_sig o u fs))) (is_herr (cy_hash o u fs))
+      (is_sigerr (cy_init_sig o u fs))) (is_herr (cy_hash true o u fs))
 
 (** val eff_kw : opts -> field -> bool **)
 
@@ -540,12 +547,12 @@ type decisions = { d_rejected : bool; d_sig : sigres;
                    d_match : name list option; d_body : (name * src) list;
                    d_post : name list option }
 
-(** val cy_decide : opts -> user -> field list -> decisions **)
+(** val cy_decide : bool -> opts -> user -> field list -> decisions **)
 
-let cy_decide o u fs =
+let cy_decide hx o u fs =
   { d_rejected = (cy_rejected o u fs); d_sig = (cy_init_sig o u fs); d_repr =
     (cy_repr_fields o u fs); d_eq = (cy_eq_fields o u fs); d_order =
-    (cy_order_fields o fs); d_hash = (cy_hash o u fs); d_match =
+    (cy_order_fields o fs); d_hash = (cy_hash hx o u fs); d_match =
     (cy_match_args o u fs); d_body = (cy_body fs); d_post =
     (post_init_args u fs) }
 
